@@ -195,6 +195,15 @@ let () = run_lines (fun toks ->
         | Some ((n, d), _) -> sz n ^ " " ^ sz d) in
       fin r bad used (List.length tr) in
     one false ^ " || " ^ one true
+  | "extiter" :: p :: order :: size :: seed :: n :: _ ->
+    let p = zs p in
+    let sz_ = Model.ext_size (zs size) p in
+    let s = ref (Model.giv_ctor_nz (zs seed)) and out = ref [] in
+    for _ = 1 to int_of_string n do
+      let (cs, s') = Model.ext_randiter (nat (int_of_string order)) (Model.mod_init p) sz_ !s in
+      out := ("[" ^ join (List.map sz cs) ^ "]") :: !out; s := s'
+    done;
+    join (List.rev !out)
   | "mii" :: size :: p :: cnt :: rest ->
     let (_, tr) = split_bar [] rest in
     let (orc, bad, used) = mk_orc tr in
